@@ -35,7 +35,7 @@ LEVEL_TEXT = ("Lean 4 theorems for one-axis block plans: concat_den / concat_blo
               "broadcast_to, flip/rot90, tile, other pad modes, tril/triu, diff, the full reshape_rechunk) is validated "
               "against NumPy over irregular chunkings and empty axes, not proved.")
 LEVEL_NOTE = ("Trusted: Lean kernel + standard axioms; the harness; NumPy block kernels; n-d = product of one-axis plans "
-              "(validated). Known findings: integer mean-pad corner rounding; stat-mode pads on an empty axis.")
+              "(validated). No known finding is left for this property.")
 TECHNIQUE = "Lean 4 proof (list/index-map lemmas per operation plan) + differential correspondence"
 ASSUMPTIONS = [
     "n-d operations act axis by axis (product structure): theorems are one-axis, the n-d behaviour is validated against NumPy",
@@ -72,8 +72,6 @@ def _same(ctx, what, r, e, sig=None, blocks=True):
     try:
         g = np.asarray(r.compute(scheduler="sync"))
     except Exception as ex:
-        if sig == "pad:stats:empty-axis:ValueError" and not (isinstance(ex, ValueError) and "zero-size array" in str(ex)):
-            sig = None
         ctx.fail(f"{what}: compute raised {type(ex).__name__}", sig=sig, observed=str(ex)[:200])
         return False
     if g.shape != e.shape or g.dtype != e.dtype or r.dtype != e.dtype:
@@ -343,27 +341,12 @@ def case_op(ctx, inp):
             ctx.note("np.pad rejects the arguments (e.g. extending an empty axis)")
             return
         excess = mode in REUSE and any(max(p) > (s - 1 if mode == "reflect" else s) for p, s in zip(pw, x.shape))
-        if mode in ("maximum", "minimum", "mean") and 0 in x.shape:
-            sig = "pad:stats:empty-axis:ValueError"
         try:
             r = da.pad(d, pw, mode=mode, **kw)
         except Exception as ex:
             ctx.fail(f"pad({mode}) raised {type(ex).__name__}", sig=sig, observed=str(ex)[:200])
             return
         ctx.branch("op:pad:" + mode + (":excess" if excess else ""))
-        if mode == "mean" and x.dtype.kind in "iu" and sum(1 for p in pw if max(p) > 0) >= 2:
-            # NumPy pads axis by axis and rounds after each axis; dask rounds the mean over all padded axes once
-            try:
-                g = np.asarray(r.compute(scheduler="sync"))
-            except Exception as ex:
-                ctx.fail(f"pad(mean) raised {type(ex).__name__}", observed=str(ex)[:200])
-                return
-            if g.shape == e.shape and g.dtype == e.dtype and not np.array_equal(g, e):
-                close = int(np.max(np.abs(g.astype("i8") - e.astype("i8")))) <= 1
-                ctx.fail("pad(mode='mean') on an integer array with several padded axes differs from NumPy by one "
-                         "(corner means are rounded once instead of once per axis)" if close else "pad(mean): values differ from NumPy",
-                         sig="pad:mean:int-dtype:nd-corner-rounding" if close else None, observed=g.tolist(), expected=e.tolist())
-                return
     elif op in ("tril", "triu"):
         r, e = getattr(da, op)(d, inp["k"]), getattr(np, op)(x, inp["k"])
     elif op == "diff":
